@@ -354,6 +354,6 @@ def t_failed_update(sess, n_grains):
 
 def default_cex(name):
     """Generic public-API replay for verdicts that carry no more specific counterexample."""
-    if "dispatch" in name or "crss" in name or "failed update" in name:
+    if "dispatch" in name or "crss" in name or "failed update" in name or "unsupported (phase, fabric) pair" in name:
         return {"replay": "vf.props.replays:c07_dispatch", "case": {}, "cls": {"kind": "regime / ordinal dispatch or failed-update handling deviates"}}
     return {"replay": "vf.props.replays:c07_null", "case": {}, "cls": {"kind": "null forcing changes the texture"}}
